@@ -172,6 +172,13 @@ def times(draw, kind, n):
         return out
     base = tg.parse(draw(tg.instant()))
     span = draw(tg.span_ms(1, int(150 * 365 * 86400e3)))
+    if draw(st.integers(0, 11)) == 0:
+        # microsecond-resolution instants a few milliseconds apart (a datetime carries microseconds)
+        out = [(base + timedelta(microseconds=draw(st.integers(0, 20000)))).isoformat(timespec="microseconds") for _ in range(n)]
+        if n >= 2:  # spans stay in the documented regime (milliseconds and up): at least 2 ms between first and last
+            out[0] = base.isoformat(timespec="microseconds")
+            out[-1] = (base + timedelta(microseconds=draw(st.integers(2000, 20000)))).isoformat(timespec="microseconds")
+        return out
     if n >= 4 and draw(st.integers(0, 4)) == 0:
         # evenly spaced instants (one datum per hour / day / year ...), the commonest real timeline
         return [tg.iso(tg.from_ms(min(tg.HI_MS, tg.ms(base) + (i * span) // (n - 1)))) for i in range(n)]
@@ -247,6 +254,9 @@ def timeline_spec(draw, tier, kinds=("linear", "datetime", "datetime", "date", "
         lab["maxPos"] = draw(st.sampled_from([L, L, int(L * 0.5)]))
     if min_spacing is not None and lab.get("nodeSpacing", 3) < min_spacing:
         lab["nodeSpacing"] = draw(st.sampled_from([3, 4, 10]))
+    if draw(st.integers(0, 9)) == 0:
+        # an engine-options dict that was used for another timeline before still carries that timeline's direction
+        lab["direction"] = draw(st.sampled_from([d_ for d_ in ("up", "down", "left", "right") if d_ != direction]))
     if lab or draw(st.booleans()):
         o["labella"] = lab
     if draw(st.integers(0, 9)) < 3:
@@ -601,6 +611,10 @@ def check_c07(spec, P, tl_obj, backend, today):
             lo_t, hi_t = (-1e-6, L + 1e-6)
             if backend == "tex":
                 lo_t -= 1
+            if kind != "linear" and not deg and abs(d1 - d0) < 10000:
+                # sub-second tick spacing: C16 allows ticks within a millisecond of the domain
+                lo_t -= L / abs(d1 - d0)
+                hi_t += L / abs(d1 - d0)
             if not (lo_t <= a(p) <= hi_t):
                 raise Violation("tick-outside-axis", "tick %r at %r, axis 0..%r" % (text, p, L))
             if deg:
